@@ -29,7 +29,7 @@ if [ -n "${DEMO:-}" ]; then
 fi
 echo "== checks against the patched worktree"
 for id in "$@"; do
-  out=$(VERIF_REPO=$wt /verif/h/bin/vcheck $id ${TIER:+--tier $TIER} 2>&1); rc=$?
+  out=$(VERIF_REPO=$wt /verif/h/bin/vcheck $id ${TIER:+--tier $TIER} ${ONLY:+--only "$ONLY"} 2>&1); rc=$?
   echo "$id rc=$rc: $(echo "$out" | grep -c '^VIOLATION') violation lines"; echo "$out" | grep -A1 '^VIOLATION' | grep 'what:' | head -${LINES_:-2} | cut -c1-400
   [ $rc -eq 2 ] && echo "$out" | tail -5 | cut -c1-300
 done
